@@ -192,7 +192,7 @@ def value_only_in_literals(text, mk, v, depth=0):
     for a, b, u in lits:
         if mk not in text[a:b]:
             continue
-        if STMT_HEAD_RE.match(u):
+        if STMT_HEAD_RE.match(u.replace(v, '\x00')):      # (a value that merely looks like a statement does not count)
             # the literal is itself a statement (run by a procedure after one un-escaping): the value has to be
             # safe inside THAT statement, and the statement well-formed on its own (it gets no parameters)
             if depth < 3 and value_only_in_literals(u, mk, v, depth + 1) is None and py_wf(u, []) is None:
@@ -208,7 +208,7 @@ def value_only_in_literals(text, mk, v, depth=0):
 def arrives_in_literal(text, v, depth=0):
     """v is read back verbatim from some string literal of the statement (or of a statement nested in one)"""
     for _, _, u in py_literals(text):
-        if STMT_HEAD_RE.match(u):
+        if STMT_HEAD_RE.match(u.replace(v, '\x00')):
             if depth < 3 and arrives_in_literal(u, v, depth + 1):
                 return True
         elif v in u:
